@@ -10,4 +10,5 @@ void use(HQ & q, VArg a, WArg w, PredV & pv, PredW & pw) {
 	q.enqueue(1, a); q.enqueue(2, w);
 	q.process(); q.processOne(); q.processIf(pv); q.processIf(pw);
 	q.clearEvents(); q.emptyQueue(); q.wait(); q.waitFor(std::chrono::milliseconds(1));
+	HQ q1; HQ q2(q); HQ q3(std::move(q2));      // default, copy and move construction
 }
